@@ -1,0 +1,6 @@
+//go:build !verif
+
+package recovery
+
+// verifObserveAttempt is a no-op in normal builds (see verif_on.go).
+func verifObserveAttempt(int) {}
